@@ -181,6 +181,21 @@ impl<'a> std::io::Seek for Dribble<'a> {
         match base.checked_add_signed(off) { Some(n) => { self.pos = n; Ok(n) } None => Err(std::io::Error::new(std::io::ErrorKind::InvalidInput, "seek before start")) }
     }
 }
+/// catch_unwind for an async call of the library: a panic while the future is polled is data, not a crash of the driver.
+pub struct Guarded<F>(pub std::pin::Pin<Box<F>>);
+pub fn guarded_async<F: std::future::Future>(f: F) -> Guarded<F> { Guarded(Box::pin(f)) }
+impl<F: std::future::Future> std::future::Future for Guarded<F> {
+    type Output = Result<F::Output, String>;
+    fn poll(mut self: std::pin::Pin<&mut Self>, cx: &mut std::task::Context<'_>) -> std::task::Poll<Self::Output> {
+        let inner = self.0.as_mut();
+        match std::panic::catch_unwind(std::panic::AssertUnwindSafe(|| inner.poll(cx))) {
+            Ok(std::task::Poll::Ready(v)) => std::task::Poll::Ready(Ok(v)),
+            Ok(std::task::Poll::Pending) => std::task::Poll::Pending,
+            Err(p) => std::task::Poll::Ready(Err(p.downcast_ref::<String>().cloned().or_else(|| p.downcast_ref::<&str>().map(|s| s.to_string())).unwrap_or_else(|| "panic".into()))),
+        }
+    }
+}
+
 /// Half of the inputs (by content hash) go through the dribbling reader.
 pub fn dribbled(bytes: &[u8]) -> bool { (fnv(bytes) >> 7) % 2 == 1 }
 
